@@ -1,5 +1,6 @@
 pub mod core;
 pub mod findings;
+pub mod fuzzrt;
 pub mod orch;
 pub mod tape;
 pub mod worker;
